@@ -219,6 +219,7 @@ type SynCase struct {
 	Engine     string      `json:"engine"`
 	Test       string      `json:"test"`
 	World      SynWorld    `json:"world"`
+	BaseYear   int         `json:"base_year,omitempty"`
 	Violations []Violation `json:"violations,omitempty"`
 	Log        string      `json:"log,omitempty"`
 }
@@ -236,6 +237,9 @@ func TestC08(t *testing.T) {
 		var sc SynCase
 		if err := json.Unmarshal(b, &sc); err != nil {
 			t.Fatal(err)
+		}
+		if sc.BaseYear > 0 {
+			synBaseYear = sc.BaseYear
 		}
 		for rep := 0; rep < 8; rep++ { // map-order dependent defects show up within a few repetitions
 			if v, _ := checkWorld(s, sc.World); len(v) > 0 {
@@ -257,13 +261,20 @@ func TestC08(t *testing.T) {
 			return
 		}
 		w := genSynWorld(rt)
+		synBaseYear = 2026
+		if pct(rt, 15, "future") {
+			synBaseYear = 2031 // every recorded event is "later" than anything ergo will write now
+			stats.Label("world.dated_in_the_future")
+		}
 		viol, info := checkWorld(s, w)
+		usedYear := synBaseYear
+		synBaseYear = 2026
 		if len(viol) > 0 {
 			var vs []Violation
 			for _, m := range viol {
 				vs = append(vs, Violation{"C08", m})
 			}
-			WriteReplay(replayPath, SynCase{Property: "C08", Engine: "LOGS", Test: "TestC08", World: w, Violations: vs, Log: s.Render(w)})
+			WriteReplay(replayPath, SynCase{Property: "C08", Engine: "LOGS", Test: "TestC08", World: w, BaseYear: usedYear, Violations: vs, Log: s.Render(w)})
 			rt.Fatalf("C08 violated: %v", viol)
 		}
 		stats.Eval()
